@@ -22,15 +22,17 @@ CONSTANTS MaxUses
 Types == {"Undefined", "StrictUndefined", "FalsyStrictUndefined", "StrictDefaultUndefined"}
 Refs == {"p", "m", "p.q", "m.q", "p.l[5]"}          \* p is bound to {k: "v", l: ["i"]} ; everything but "p" is missing
 Missing(r) == r # "p"
-Kinds == {"output", "echo", "iterate", "tablerow", "truthy", "unless", "eq1", "eqnil", "eqfalse", "eqempty", "contains",
+Kinds == {"output", "echo", "iterate", "tablerow", "truthy", "unless", "eq1", "eqnil", "eqfalse", "eqempty", "eqmissing", "nemissing", "casemissing", "contains",
           "upcase", "size", "default", "join", "assign", "capture_out", "ternary", "case", "index", "arg"}
 (* the statement's four raising uses for StrictUndefined: output, iterate, compare, filter *)
 Class(k) == CASE k \in {"output", "echo", "capture_out"} -> "output"
               [] k \in {"iterate", "tablerow"} -> "iterate"
-              [] k \in {"eq1", "eqnil", "eqfalse", "eqempty", "contains", "case"} -> "compare"
+              [] k \in {"eq1", "eqnil", "eqfalse", "eqempty", "eqmissing", "nemissing", "casemissing", "contains", "case"} -> "compare"
               [] k \in {"upcase", "size", "default", "join"} -> "filter"
               [] OTHER -> "other"       \* truthiness, ternary condition, assignment without use, use as index / argument
 Uses == [k : Kinds, r : Refs]
+(* the *missing kinds compare the reference with ANOTHER missing variable: something missing is used whatever the reference is *)
+UsesMissing(u) == Missing(u.r) \/ u.k \in {"eqmissing", "nemissing", "casemissing"}
 
 (* what the DEFAULT undefined type yields for a use of something missing (documented: prints nothing, iterates nothing, *)
 (* is falsy, equals nil, has size 0, takes the default) — "?" where the documentation does not fix the text            *)
@@ -40,7 +42,9 @@ DefaultText(u) ==
          [] u.k = "iterate" -> "E"
          [] u.k \in {"truthy", "ternary", "eq1", "contains"} -> "F"
          [] u.k = "unless" -> "T"
-         [] u.k = "eqnil" -> "T"
+         [] u.k \in {"eqnil", "eqmissing"} -> "T"      \* two missing values are equal (both are nil)
+         [] u.k = "nemissing" -> "F"
+         [] u.k = "casemissing" -> "W"
          [] u.k = "size" -> "0"
          [] u.k = "default" -> "D"
          [] OTHER -> "?"
@@ -55,7 +59,7 @@ Init == /\ prog \in Progs /\ k = 1
 
 Worse(a, b) == IF a = "raise" \/ b = "raise" THEN "raise" ELSE IF a = "either" \/ b = "either" THEN "either" ELSE "ok"
 UseVerdict(t, u) ==
-  IF ~Missing(u.r) \/ t = "Undefined" THEN "ok"
+  IF ~UsesMissing(u) \/ t = "Undefined" THEN "ok"
   ELSE IF t = "StrictUndefined" /\ Class(u.k) # "other" THEN "raise"
   ELSE "either"
 
@@ -69,8 +73,8 @@ Spec == Init /\ [][Next]_vars
 
 Done == k = Len(prog) + 1
 DefaultNeverRaisesSpec == must["Undefined"] = "ok"
-StrictRaisesSpec == Done => ((\E i \in 1..Len(prog) : Missing(prog[i].r) /\ Class(prog[i].k) # "other") <=> must["StrictUndefined"] = "raise")
-NothingMissingAllOk == Done => ((\A i \in 1..Len(prog) : ~Missing(prog[i].r)) => \A t \in Types : must[t] = "ok")
+StrictRaisesSpec == Done => ((\E i \in 1..Len(prog) : UsesMissing(prog[i]) /\ Class(prog[i].k) # "other") <=> must["StrictUndefined"] = "raise")
+NothingMissingAllOk == Done => ((\A i \in 1..Len(prog) : ~UsesMissing(prog[i])) => \A t \in Types : must[t] = "ok")
 Emit == Done => PrintT(ToJson([prog |-> prog, must |-> must, dflt |-> dflt]))
 
 =============================================================================
